@@ -151,6 +151,17 @@ example : Canon68 (fld 0xBBB38000 31 1) (fld 0xBBB38000 23 8) (fld 0xBBB38000 0 
 example : ¬ Canon68 (fld 0x44000001 31 1) (fld 0x44000001 23 8) (fld 0x44000001 0 23) := by
   unfold Canon68; decide
 
+/-- **Code 68, every encoder output is canonical and `to68 ∘ from68` is the identity on the image of `to68`**:
+for every dyadic `m·2^e` (every finite double; clamps included) the word `to68 v` is a 32-bit canonical word, and
+decoding it and encoding again gives back the same word. -/
+theorem to68_from68_to68 (m e : Int) :
+    to68 m e < 2 ^ 32 ∧ Canon68 (fld (to68 m e) 31 1) (fld (to68 m e) 23 8) (fld (to68 m e) 0 23) ∧
+    ∃ d, from68 ((to68 m e : Nat) : Int) = .fin d ∧ to68 d.m d.e = to68 m e := by
+  obtain ⟨hc, hlt⟩ := to68_canonical m e
+  exact ⟨hlt, hc, (to68_from68_fixed_iff _ hlt).2 hc⟩
+
+example : to68 1 (-2) = 0x3FC00000 ∧ from68 0x3FC00000 = .fin ⟨4194304, -24⟩ ∧ to68 4194304 (-24) = 0x3FC00000 := by decide
+
 /-- the range in which `to68` neither clamps nor depresses the mantissa: `2^-129 ≤ |m·2^e| < 2^127`, expressed
 through the exponent that `frexp` returns -/
 def InRange68 (m e : Int) : Prop := m ≠ 0 ∧ -128 ≤ frexpExp m e ∧ frexpExp m e ≤ 127
@@ -368,5 +379,19 @@ theorem isingl_decode_spec (b0 b1 b2 b3 : Nat) (h0 : b0 < 256) (h1 : b1 < 256) (
   ⟨by rfl, by rfl, ibm4_spec b0 b1 b2 b3 h0 h1 h2 h3⟩
 
 example : ISINGL [0xC2, 0x76, 0xA0, 0x00] 0 = .ok (.fin ⟨-7774208, -16⟩, 4) := by rfl
+
+/-- **VSINGL, decode_spec as the repository codes it** (DESIGN F9: the fraction has weight `2^-23`, following the
+repository's / RP66V1's printed vector `0C 44 00 80 → 153`; a VAX F_floating fraction has weight `2^-24`):
+`(-1)^S · (0.5 + F/2^23) · 2^(E-128)`, `0` when `E = 0 ∧ S = 0`; four bytes consumed. -/
+theorem vsingl_decode_spec (b0 b1 b2 b3 : Nat) (h0 : b0 < 256) (h1 : b1 < 256) (h2 : b2 < 256) (h3 : b3 < 256) :
+    VSINGL [b0, b1, b2, b3] 0 = .ok (vax4 b0 b1 b2 b3, 4) ∧
+    vax4 b0 b1 b2 b3 =
+      (let F := (b0 % 128) * 65536 + b3 * 256 + b2
+       let E := (b1 % 128) * 2 + b0 / 128
+       if E = 0 ∧ b1 < 128 then .fin ⟨0, 0⟩
+       else .fin ⟨if b1 < 128 then ((4194304 + F : Nat) : Int) else -((4194304 + F : Nat) : Int), (E : Int) - 151⟩) :=
+  ⟨by rfl, vax4_spec b0 b1 b2 b3 h0 h1 h2 h3⟩
+
+example : VSINGL [0x0C, 0x44, 0x00, 0x80] 0 = .ok (.fin ⟨5013504, -15⟩, 4) := by rfl   -- 153
 
 end TD.C07
